@@ -21,7 +21,7 @@ from .common import Consumer, uncodes, codes, tla_seq, guarded
 LEVEL = 'model_checking'
 
 WORDS = ['a', ',', '=', 'a,', ',a', ',,', 'a=', '=a', ',=', '=,', 'aa', ',a,', 'a,,', 'a=a', ',=a', 'a,a']
-SEPS = [('str', ','), ('str', ',,'), ('class', ',='), ('str', '=')]
+SEPS = [('str', ','), ('str', ',,'), ('class', ',='), ('str', '='), ('notafter', ',', ','), ('bosalt', ',', '=')]
 MAXSPLITS = [99, 0, 1, 2]
 OPAQUE, COMMENT = '{,=}', '%,=\n'
 
@@ -55,6 +55,10 @@ CHECK_DEADLOCK FALSE
 def sep_tla(s):
     if s[0] == 'str':
         return '[t |-> "str", lit |-> %s]' % tla_seq(s[1])
+    if s[0] == 'notafter':
+        return '[t |-> "notafter", lit |-> %s, c |-> %d]' % (tla_seq(s[1]), ord(s[2]))
+    if s[0] == 'bosalt':
+        return '[t |-> "bosalt", lit |-> %s, alt |-> %d]' % (tla_seq(s[1]), ord(s[2]))
     return '[t |-> "class", set |-> {%s}]' % ', '.join(str(ord(c)) for c in s[1])
 
 
@@ -123,8 +127,13 @@ def real_seps(sep):
         lit = uncodes(sep['lit'])
         return [('string', lit), ('regex', re.compile(re.escape(lit))),
                 ('callable', lambda chars, pos, lit=lit: ((chars.find(lit, pos), chars.find(lit, pos) + len(lit)) if chars.find(lit, pos) != -1 else None))]
-    cls = ''.join(chr(c) for c in sep['set'])
-    rx = re.compile('[' + re.escape(cls) + ']')
+    if sep['t'] == 'notafter':
+        rx = re.compile('(?<!%s)%s' % (re.escape(chr(sep['c'])), re.escape(uncodes(sep['lit']))))
+    elif sep['t'] == 'bosalt':
+        rx = re.compile('^%s|%s' % (re.escape(uncodes(sep['lit'])), re.escape(chr(sep['alt']))))
+    else:
+        cls = ''.join(chr(c) for c in sep['set'])
+        rx = re.compile('[' + re.escape(cls) + ']')
 
     def fn(chars, pos):
         m = rx.search(chars, pos)
